@@ -35,6 +35,33 @@ type RefResult struct {
 
 // RunRef compiles all cases with GOARCH=386 (so int is 32 bit) in one
 // go build invocation and runs every binary.
+// refCache is the build cache of the reference builds: every generated program leaves its compiled package
+// there (about 100 KB each), so the cache is kept apart from the user's and emptied when it passes a size cap;
+// the only cost of emptying it is one rebuild of the 386 standard library.
+func refCache() string {
+	exe, err := os.Executable()
+	if err != nil {
+		return ""
+	}
+	dir := filepath.Join(filepath.Dir(exe), "gocache-ref")
+	var size int64
+	filepath.WalkDir(dir, func(_ string, d os.DirEntry, err error) error {
+		if err == nil && !d.IsDir() {
+			if fi, e := d.Info(); e == nil {
+				size += fi.Size()
+			}
+		}
+		return nil
+	})
+	if size > 6<<30 {
+		os.RemoveAll(dir)
+	}
+	if os.MkdirAll(dir, 0o755) != nil {
+		return ""
+	}
+	return dir
+}
+
 func RunRef(cases []RefCase) ([]RefResult, error) {
 	res := make([]RefResult, len(cases))
 	if len(cases) == 0 {
@@ -63,6 +90,9 @@ func RunRef(cases []RefCase) ([]RefResult, error) {
 	cmd := exec.Command("go", "build", "-o", "bin/", "./...")
 	cmd.Dir = dir
 	cmd.Env = append(os.Environ(), "GOARCH=386", "GOOS=linux", "CGO_ENABLED=0", "GOFLAGS=-mod=mod", "GOPROXY=off", "GOSUMDB=off", "GOTOOLCHAIN=local", "GOWORK=off")
+	if gc := refCache(); gc != "" {
+		cmd.Env = append(cmd.Env, "GOCACHE="+gc)
+	}
 	var stderr bytes.Buffer
 	cmd.Stderr = &stderr
 	cmd.Stdout = &stderr
